@@ -5,15 +5,21 @@ Real code: VerifyScript / EvalScript of the working tree on ARBITRARY byte strin
     (`c07.verify` / `c07.eval` of btcmodel = Model.ScriptEval, in which every other Python exception is an explicit
     outcome and is proved dead for in-range indices and admissible flag sets — Props/C07.lean);
   * `txTo.serialize()`, both scripts and (EvalScript) nothing but the caller's stack list change: suffix `!mutated`;
-  * the state captured in a raised EvalScriptError respects the interpreter's limits
+  * the state captured in a raised EvalScriptError (`e.stack`, `e.altstack`, `e.nOpCount`; None = empty / 0) is
+    printed as `{stack|altstack|nOpCount}` and must EQUAL the model's `Captured` (the term the limit theorems of
+    Props/C07.lean bound); a VerifyScriptError is `{verify}`;
+  * independently of the model, that state respects the interpreter's limits
     (|stack|+|altstack| <= 1003, nOpCount <= 221, elements <= max(520, initial)): suffix `!limits`.
-Known findings (not repaired): D6 flags with CLEANSTACK but without P2SH -> AssertionError; D7 negative inIdx ->
-IndexError.  They are generated on purpose and recognised by `signature()`.
+Known findings (not repaired): D6 flags with CLEANSTACK but without P2SH -> AssertionError; D7 inIdx < -|vin| (and
+SIGHASH_SINGLE with inIdx < -|vout|) -> IndexError.  They are generated on purpose and recognised by `signature()`.
+A negative index in range (-|vin| <= inIdx < 0) raises nothing: `txTo.vin[inIdx]` WRAPS, the digest is the one of
+that wrapped position with every sequence number zeroed under NONE/SINGLE (Model/ScriptEnvReal.rawSignatureHashNeg);
+signatures over that digest verify, in Python and in the model.
 
 Generators (DESIGN §6 C07 Tie): random byte strings of length 0..10 001 (uniform and geometric lengths, uniform bytes
 and bytes drawn from the opcode alphabet), structure-aware mutants of the C06 programs, every truncation point of
 programs made of all push encodings, P2SH-shaped scriptPubKeys with garbage redeem scripts, mutable and immutable
-txTo, indices {0, last, |vin|, |vin|+7, -5}, all 16 flag sets.
+txTo, indices {0, last, |vin|, |vin|+7, -1, -|vin|, -|vin|-1, -5}, all 16 flag sets.
 """
 from ..framework import Prop, mk, ensure_repo_on_path, Case, exc_family
 from .. import txfmt
@@ -27,19 +33,25 @@ class C07(Prop, ScriptGen):
     table_groups = ['Opcodes']
     theorems = ['BtcVerif.C07.' + t for t in (
         'verify_total', 'only_known_findings', 'verify_contained', 'error_state_limits', 'eval_contained',
-        'eval_state_limits')] + ['BtcVerif.C06.Concrete.verify_contained_real',
-                                 'BtcVerif.C06.Concrete.error_state_limits_real']
+        'eval_state_limits', 'state_limits_between_ops')] + ['BtcVerif.C06.Concrete.' + t for t in (
+            'hashesOK_real', 'raises_real_iff', 'only_known_findings_real', 'verify_contained_real',
+            'eval_contained_real', 'error_state_limits_real')]
     anchors = [('bitcoin/core/scripteval.py', f) for f in (
         'EvalScript', 'VerifyScript', '_EvalScript', '_CheckMultiSig', '_CheckSig', 'EvalScriptError',
         'MissingOpArgumentsError', 'ArgumentsInvalidError', 'VerifyOpFailedError')] + \
         [('bitcoin/core/key.py', 'CECKey.verify'), ('bitcoin/core/script.py', 'RawSignatureHash'),
          ('bitcoin/core/script.py', 'CScript.raw_iter'), ('bitcoin/core/script.py', 'FindAndDelete')]
-    trusted_base = ['btcmodel executable = compiled Model.ScriptEval (Lean compiler)',
+    trusted_base = ['btcmodel executable = compiled Model.ScriptEval / Model.ScriptEnvReal (Lean compiler)',
                     'OpenSSL behind CECKey.verify returns a bool for any input (validated by this run)']
-    assumptions = ['transaction fields in wire range (C01 WF)']
+    assumptions = ['verify_contained_real / eval_contained_real / only_known_findings_real: transaction fields in wire '
+                   'range (Spec.Sighash.FieldsWF; outside it from_tx / serialize raise ValueError / struct.error, modelled '
+                   'as explicit outcomes, not generated); containment: inIdx >= 0 or wrapping (IdxOK), flags admissible',
+                   'error_state_limits_real: none (any transaction, any int index, any flag set)',
+                   'the state compared in T2 is the one the limit theorems bound: `{stack|altstack|nOpCount}` of the '
+                   'driver is Model.ScriptEval.Captured']
     rule = ('random byte strings 0..10001 as scriptSig/scriptPubKey (uniform + opcode-alphabet), every truncation point '
             'of all-push-kind programs, mutants of signature/multisig programs, P2SH shapes with garbage redeem scripts; '
-            'x 16 flag sets x indices {0,last,|vin|,|vin|+7,-5} x mutable/immutable tx; non-trivial = some script non-empty')
+            'x 16 flag sets x indices {0,last,|vin|,|vin|+7,-1,-|vin|,-|vin|-1,-5} x mutable/immutable tx; non-trivial = some script non-empty')
 
     def setup(self):
         self.init_lib()
@@ -85,7 +97,7 @@ class C07(Prop, ScriptGen):
 
     def idx_choices(self, ti):
         n = len(self.txs[ti]['vin'])
-        return [0, n - 1, n, n + 7, -5]
+        return [0, n - 1, n, n + 7, -1, -n, -n - 1, -5]
 
     def all_push_program(self, rng):
         parts = [b'\x00', push(b'\x01'), push(b'ab' * 10), push(b'c' * 75), push(b'd' * 76), push(b'e' * 255),
@@ -128,7 +140,9 @@ class C07(Prop, ScriptGen):
                 i += 1
                 if i % nshards != shard:
                     continue
-                good = self.sign(0, spk, ti, idx) if 0 <= idx < len(self.txs[ti]['vin']) else self.sign(0, spk, ti, 0)
+                nvin = len(self.txs[ti]['vin'])
+                # an in-range negative index WRAPS in RawSignatureHash (vin[inIdx]); the signature is made over that digest
+                good = self.sign(0, spk, ti, idx) if -nvin <= idx < nvin else self.sign(0, spk, ti, 0)
                 for mask in ALL_MASKS:
                     for mut in (0, 1):
                         yield self.vf(push(good), spk, mask, ti, idx, mut, tag='p2pk-grid')
@@ -202,7 +216,9 @@ class C07(Prop, ScriptGen):
         for _ in range(1500 if big else 60):
             ti = rng.randrange(3)
             idx = rng.choice(self.idx_choices(ti))
-            sidx = idx if 0 <= idx < len(self.txs[ti]['vin']) else 0
+            # the index the signatures are made for: idx itself where RawSignatureHash raises nothing for any hash type
+            nvin, nvout = len(self.txs[ti]['vin']), len(self.txs[ti]['vout'])
+            sidx = idx if -min(nvin, nvout) <= idx < nvin else 0
             mask = rng.choice(ALL_MASKS)
             r = rng.random()
             if r < 0.35:
@@ -230,6 +246,12 @@ class C07(Prop, ScriptGen):
             out = 'err:py:RecursionError'
         except Exception as e:  # noqa: BLE001 - every escaping exception is an observation
             out = 'err:' + exc_family(e)
+            if isinstance(e, self.E.EvalScriptError):
+                # the captured state, compared with the model's `Captured` (None attributes <-> empty / 0)
+                out += '{%s|%s|%d}' % (','.join(bytes(x).hex() for x in (e.stack or [])),
+                                       ','.join(bytes(x).hex() for x in (e.altstack or [])), e.nOpCount or 0)
+            elif isinstance(e, self.E.VerifyScriptError):
+                out += '{verify}'
             if isinstance(e, self.E.EvalScriptError):
                 st = getattr(e, 'stack', None)
                 tot = (len(st) if st is not None else 0) + (len(e.altstack) if e.altstack is not None else 0)
@@ -282,8 +304,8 @@ class C07(Prop, ScriptGen):
             if ' ~ ' not in m1:
                 return False
             m, r = m1.split(' ~ ')
-            contained = i1.startswith('ok') or i1 == 'err:validation'
-            if not (i1 == m and contained and (r == '-' or r == m)):
+            contained = i1.startswith('ok') or (i1.startswith('err:validation{') and i1.endswith('}'))
+            if not (i1 == m and contained and (r == '-' or r == m.split('{')[0])):
                 return False
         return True
 
@@ -332,11 +354,14 @@ class C07(Prop, ScriptGen):
         if io == 'err:py:AssertionError' and c['op'] == 'c07.verify' and (mask & 4) and not (mask & 1):
             return 'D6-cleanstack-without-p2sh'
         if io == 'err:py:IndexError' and idx < 0:
-            return 'D7-negative-inidx'
+            # only where Props/C06Concrete `only_known_findings_real` allows it: the index does not wrap
+            t = txfmt.parse_tx(a[3])
+            if idx < -len(t['vin']) or idx < -len(t['vout']):
+                return 'D7-negative-inidx'
         m = mo.split(' ~ ')[0]
         scripts = [bytes.fromhex(a[0])] + ([bytes.fromhex(a[1])] if c['op'] == 'c07.verify' else [])
         ops = [o for s in scripts for (o, _, _) in parse_ops(s)]
-        if sum(1 for o in ops if o <= 0x4e) >= 900 and (io.endswith('!limits') or (io.startswith('ok') and m == 'err:validation')):
+        if sum(1 for o in ops if o <= 0x4e) >= 900 and (io.endswith('!limits') or (io.startswith('ok') and m.startswith('err:validation'))):
             return 'D5-push-skips-stack-limit'
         if any(o in (0xa5, 0xac, 0xae) for o in ops) and io != m and not io.startswith('err:py') and '!' not in io:
             return 'D4-false-result-pushed-as-00'
